@@ -112,7 +112,7 @@ func freeRun(st *Stage, inputs [][]int, cp int) (*Case, bool, string) {
 		ins[i] = make(chan int, cp)
 		icaps[i] = cp
 	}
-	rec := &calls{gates: map[int]chan struct{}{}}
+	rec := &calls{gates: map[int]chan struct{}{}, start: time.Now()}
 	outs := build(ctx, st, ins, rec)
 	c := &Case{Stage: st, ICaps: icaps, Inputs: inputs}
 	for _, o := range outs {
